@@ -1801,7 +1801,7 @@ def GET_EYE(
         instant = int(instant / sps_resamp * sps)
     else:
         instant = np.abs(t - t_center).argmin() - sps // 2 + 1
-    eye_dict["i"] = instant
+    eye_dict["i"] = instant % sps  # the optimum phase within a slot (an eye that opens late in the slot gave i = sps, one whole slot off)
 
     # We obtain the upper cluster
     cond = (input > y_center) & in_span
